@@ -98,7 +98,8 @@ def fold_kernel(call_fn, schema):
 
     f = Folder({"self": selfobj, "zero": zero}, isinstance_hook=isinst)
     body = docstring_free(call_fn.body)
-    r = f.run(body, TRACKED)
+    tracked = _tracked_closure(call_fn)
+    r = f.run(body, tracked)
     if r is not None:
         raise Inconclusive("kernel builder returned/raised while folding: %r" % (r,))
     gf = f.env.get("gen_func")
@@ -107,6 +108,43 @@ def fold_kernel(call_fn, schema):
     return {"text": "\n".join(gf), "arg_names": f.env.get("arg_names"),
             "num_iterables": f.env.get("num_iterables"), "den_iterables": f.env.get("den_iterables"),
             "la": f.env.get("la"), "lb": f.env.get("lb"), "lm": f.env.get("lm")}
+
+
+_CLOSURE = {}
+
+
+def _tracked_closure(call_fn):
+    """TRACKED plus every local of the method that (transitively) feeds a tracked variable - so that helper
+    variables introduced by a refactoring of the builder are folded too.  Inputs (seq, memory, self) are excluded."""
+    key = id(call_fn)
+    if key in _CLOSURE and _CLOSURE[key][0] is call_fn:
+        return _CLOSURE[key][1]
+    tracked = set(TRACKED)
+    assigned = {}
+    for n in ast.walk(call_fn):
+        if isinstance(n, (ast.Assign, ast.AugAssign)):
+            tg = n.targets if isinstance(n, ast.Assign) else [n.target]
+            for t in tg:
+                for x in ast.walk(t):
+                    if isinstance(x, ast.Name):
+                        assigned.setdefault(x.id, []).append(n)
+        elif isinstance(n, ast.For):
+            for x in ast.walk(n.target):
+                if isinstance(x, ast.Name):
+                    assigned.setdefault(x.id, [])
+    exclude = {"seq", "memory", "self", "zero", "tw", "actual_len", "gen", "arguments", "den", "inv_gain"}
+    changed = True
+    while changed:
+        changed = False
+        for name in list(tracked):
+            for st in assigned.get(name, []):
+                for x in ast.walk(st.value):
+                    if isinstance(x, ast.Name) and x.id in assigned and assigned[x.id] and x.id not in tracked \
+                            and x.id not in exclude:
+                        tracked.add(x.id)
+                        changed = True
+    _CLOSURE[key] = (call_fn, tracked)
+    return tracked
 
 
 class KernelReport(object):
